@@ -24,10 +24,10 @@ ASSUMPTIONS = [
     'already in the same port list; slices / piped units supply no more streams than a fixed-size list holds',
     'variable-size port lists hold their streams in index order (order is irrelevant to the invariant)',
 ]
-OUTSIDE = ['more than 3 units / 4 streams (thorough)', 'auxiliary units, systems, registries', 'docking warnings']
+OUTSIDE = ['more than 3 units / 4 streams (thorough; three unit kinds together only with 3 streams)', 'auxiliary units, systems, registries', 'docking warnings']
 BOUNDS = {
     'quick': dict(units='Fix(2 in,1 out) Var(variable in/out)', streams=3, step='1 operation from every valid wiring; sequences depth 2'),
-    'thorough': dict(units='Fix(2 in,1 out) Var(variable) Split(1 in,2 out)', streams=4, step='1 operation from every valid wiring; sequences depth 3'),
+    'thorough': dict(units='Fix(2 in,1 out) Var(variable): 4 streams; with Split(1 in,2 out): 3 streams', streams='3-4', step='1 operation from every valid wiring; sequences depth 3 (2 units)'),
 }
 
 _cls = {}
@@ -436,8 +436,12 @@ def groups(tier):
     seq_ops = ['set-in', 'set-out', 'append-in', 'append-out', 'pop-in', 'remove-out', 'slice-in', 'disconnect-stream',
                'pipe-unit-unit', 'unit-disconnect', 'empty-in', 'clear-in']
     g = {
-        'single-step': (g_step(kinds, n, OPS), dict(max_paths=20000000, witnesses=4)),
-        'sequences': (g_sequence(['Fix', 'Var'], 2, seq_ops, 2 if q else 3), dict(max_paths=20000000, witnesses=4)),
+        'single-step': (g_step(['Fix', 'Var'], n, OPS), dict(max_paths=20000000, witnesses=4)),
+        'sequences': (g_sequence(['Fix', 'Var'], 2, seq_ops, 2), dict(max_paths=20000000, witnesses=4)),
         'constructors': (g_constructor(['Fix', 'Var', 'Split']), dict(witnesses=4)),
     }
+    if not q:
+        g['single-step-with-splitters'] = (g_step(['Fix', 'Var', 'Split'], 3, OPS), dict(max_paths=20000000, witnesses=4))
+        g['sequences-depth-3'] = (g_sequence(['Fix', 'Var'], 2, seq_ops, 3),
+                                  dict(max_paths=20000000, witnesses=4))
     return g
